@@ -284,3 +284,32 @@ def _c12_recursive_path(ctx):
     # recursive hops the same member object repeats, so codec-side errors report 'B.rec' for 'B.rec.rec'
     c = ctx.case
     return c.get('recursive_hops', 0) >= 2 and ctx.f.kind == 'wrong-path'
+
+
+def _set_with_recursive_member(spec):
+    from . import arrange
+    for m in spec.modules:
+        for name, t in m.types:
+            for n in t.walk():
+                if n.kind != 'SET':
+                    continue
+                for mem in n.all_members():
+                    if mem.ty.kind == 'REF' and (m.name, name) in arrange.reachable(spec, m.name, mem.ty.ref):
+                        return True
+    return False
+
+
+@finding('C19', 'set-with-recursive-member')
+def _c19_set_recursive(ctx):
+    # ber.py/per.py/oer.py compile_members(sort_by_tag=True): a SET member that is a recursive reference has
+    # no tag yet when the members are sorted, compile raises TypeError; whether a reference is 'recursive'
+    # depends on which type is compiled first, i.e. on how the specification is organised
+    from . import jsonio
+    if ctx.f.kind != 'compile-differs':
+        return False
+    try:
+        a = jsonio.spec_dec(ctx.case['arranged'])
+        o = jsonio.spec_dec(ctx.case['spec'])
+    except Exception:
+        return False
+    return _set_with_recursive_member(a) or _set_with_recursive_member(o)
